@@ -3,7 +3,7 @@ from .. import lib, runner
 
 PROP = "C02"
 THEOREMS = ["MemMap.alignUp_spec", "MemMap.addResource_spec", "MemMap.addWindow_spec", "MemMap.inv_reachable", "MemMap.items_ascending", "MemMap.refusal_atomic", "MemMap.frozen_refuses_resource", "MemMap.frozen_refuses_window", "MemMap.window_freezes_child", "MemMap.frozen_forever", "MemMap.alignTo_spec", "RangeMap.overlaps_exact", "RangeMap.insert_inv"]
-IMPORTS = ["SocVerif"]
+IMPORTS = ["SocVerif.Props.C02"]
 
 
 def nontrivial(r):
